@@ -541,8 +541,10 @@ class BaseName:
         if not self._name.is_value_name:
             return ''
 
-        lines = self._name.get_root_context().code_lines
-        if lines is None:
+        # Namespace packages have no code lines, module attributes like
+        # ``__doc__`` have no position.
+        lines = getattr(self._name.get_root_context(), 'code_lines', None)
+        if lines is None or self._name.start_pos is None:
             # Probably a builtin module, just ignore in that case.
             return ''
 
